@@ -42,6 +42,18 @@ def model(tier, v, cov):
     cov.setdefault("mc_runs", []).append(dict(run="MC_Maintainer: TableMaintainer's lock discipline, pings, refresh lookups, Close; contacts=%s, %d passes"
                                                   % (contacts, passes), distinct=r.distinct, generated=r.generated, depth=r.depth,
                                               wall_s=round(r.wall, 1)))
+    if tier == "thorough":
+        # a fourth contact makes bucket 0 overflow while the maintainer works: safety only (6.6e6 states, ~2-4 min)
+        cfg4 = mc_cfg('{"a", "b", "c", "d"}', 1).replace("PROPERTIES FailMarkOK StableUnderLock PassEnds Returns", "PROPERTIES FailMarkOK StableUnderLock")
+        r4 = vlib.tlc("MC_Maintainer", cfg4, timeout=3000)
+        log("  TLC MC_Maintainer contacts={a,b,c,d} 1 pass, safety  %d distinct  %d generated  %.1fs" % (r4.distinct, r4.generated, r4.wall))
+        if not r4.clean:
+            v.inconclusive.append("maintainer model (4 contacts) not clean: inv=%s prop=%s err=%s timeout=%s" % (r4.invariant, r4.property, r4.error, r4.timed_out))
+        else:
+            cov["states"] += r4.distinct
+            cov["transitions"] += r4.generated
+            cov["mc_runs"].append(dict(run="MC_Maintainer: four contacts (bucket 0 overflows), one pass, safety properties", distinct=r4.distinct,
+                                       generated=r4.generated, depth=r4.depth, wall_s=round(r4.wall, 1)))
     g = vlib.tlc("MC_Maintainer", mc_cfg('{"a", "c"}', 1, hold=True, props=False), timeout=900)
     stuck = g.property is not None or g.invariant is not None
     log("  vacuity guard: the variant that keeps the read lock while waiting for its pings %s" % ("gets stuck, as required" if stuck else "PASSES"))
